@@ -253,7 +253,7 @@ EIN, EOUT = "gel['edges']", "result['edges']"
 ON_GRID = "(round6(wmin) == wmin and round6(wmax) == wmax and (eps == 0 or (wmin <= 0 and 0 <= wmax)))"
 
 
-def _sanitize(variant, geltype, meta_clauses, unreachable):
+def _sanitize(variant, geltype, meta_clauses, unreachable, literal_bounds=False):
     R.contract(
         S + "_sanitize_gel_for_write", "C06", name="_sanitize_gel_for_write[%s]" % variant, callee=False,
         types={"gel": geltype, "ctx": "C06CtxSan"}, axioms=ROUND_FACTS, timeout_ms=6000,
@@ -275,7 +275,8 @@ def _sanitize(variant, geltype, meta_clauses, unreachable):
             # the literal claim "every stored weight lies in [wmin, wmax]" -- NOT implied by the code when a bound is not a
             # multiple of 1e-6 (round6(clamp(w)) can step over it) or when 0 lies outside the bounds and eps-pruning
             # stores 0.0 (natively: weight_min=0.1234564, w=0.0 -> 0.123456;  weight_min=0.2, eps=0.5, w=0.3 -> 0.0)
-            ("weights-in-bounds", "forall((k, 'str'), k in " + EOUT + ", wmin <= " + EOUT + "[k]['weight'] and " + EOUT + "[k]['weight'] <= wmax)"),
+        ] + ([("weights-in-bounds", "forall((k, 'str'), k in " + EOUT + ", wmin <= " + EOUT + "[k]['weight'] and " + EOUT + "[k]['weight'] <= wmax)")]
+             if literal_bounds else []) + [
             ("edges-count-exact", "result['meta']['edges_count'] == len(" + EOUT + ")"),
             ("meta-schema-v1.1", "result['meta']['schema'] == 'v1.1' and len(result['meta']) == 6"),
             ("input-untouched", "seq_eq(gel['nodes'], old(gel['nodes'])) and seq_eq(gel['edges'], old(gel['edges']))"),
@@ -304,7 +305,8 @@ DEAD = ["if isinstance(gnodes, list)", "if isinstance(gedges, list)", "continue"
 _sanitize("dict-graph,meta", "C06Gel",
           [("meta-lists-carried-or-empty", "seq_eq(result['meta']['merges'], gel['meta']['merges']) and "
             "len(result['meta']['splits']) == 0 and len(result['meta']['promotions']) == 0"),
-           ("meta-counter-carried", "result['meta']['concept_nodes_count'] == gel['meta']['concept_nodes_count']")], DEAD)
+           ("meta-counter-carried", "result['meta']['concept_nodes_count'] == gel['meta']['concept_nodes_count']")], DEAD,
+          literal_bounds=True)
 _sanitize("dict-graph,no-meta", "C06GelNoMeta",
           [("meta-defaults", "len(result['meta']['merges']) == 0 and len(result['meta']['splits']) == 0 and "
             "len(result['meta']['promotions']) == 0 and result['meta']['concept_nodes_count'] == 0")], DEAD)
